@@ -188,6 +188,11 @@ def set_objective(
                 Zero, direction=model.solver.objective.direction
             )
         for reaction, coef in value.items():
+            if getattr(reaction, "_model", None) not in (None, model):
+                # a reaction of another model (e.g. of the original of a copy)
+                # stands for this model's reaction of the same id; its variables
+                # belong to another problem and would address the wrong columns
+                reaction = model.reactions.get_by_id(reaction.id)
             model.solver.objective.set_linear_coefficients(
                 {reaction.forward_variable: coef, reaction.reverse_variable: -coef}
             )
